@@ -1,7 +1,192 @@
 package main
 
-import "fmt"
+import (
+	"bytes"
+	"fmt"
+	"go/ast"
+	"go/parser"
+	"go/printer"
+	"go/token"
+	"os"
+	"path/filepath"
+	"sort"
+	"strconv"
+	"strings"
+)
+
+// instrumentImpl regenerates, from /repo's working tree, copies of the age library packages in which a
+// scheduling point zzsched.P(site) precedes every statement of every function body and function
+// literal, `go` statements start scheduler threads and package sync is replaced by the cooperative
+// shim. The copies are fed to the build through the overlay; /repo is not written.
+var instrPackages = []string{".", "agessh", "armor", "internal/stream", "internal/format", "internal/bech32"}
+
+const schedPath = "filippo.io/age/internal/zzverif/zzsched"
+const syncShimPath = "filippo.io/age/internal/zzverif/zzsync"
 
 func instrumentImpl(bdir string, repl map[string]string) error {
-	return fmt.Errorf("instrumenter not built yet")
+	site := 0
+	outRoot := filepath.Join(bdir, "instr")
+	os.RemoveAll(outRoot)
+	var siteTable []string
+	for _, pkg := range instrPackages {
+		dir := filepath.Join(repoDir, pkg)
+		ents, err := os.ReadDir(dir)
+		if err != nil {
+			return err
+		}
+		fset := token.NewFileSet()
+		var globals []string
+		pkgName := ""
+		for _, e := range ents {
+			name := e.Name()
+			if e.IsDir() || !strings.HasSuffix(name, ".go") || strings.HasSuffix(name, "_test.go") {
+				continue
+			}
+			src := filepath.Join(dir, name)
+			b, err := os.ReadFile(src)
+			if err != nil {
+				return err
+			}
+			f, err := parser.ParseFile(fset, src, b, parser.ParseComments)
+			if err != nil {
+				return fmt.Errorf("instrument: %v", err)
+			}
+			// keep build constraints, drop every other comment (inserted nodes have no positions and the
+			// printer could otherwise attach a line comment in front of code)
+			var header string
+			for _, cg := range f.Comments {
+				for _, c := range cg.List {
+					if strings.HasPrefix(c.Text, "//go:build") && c.Pos() < f.Package {
+						header += c.Text + "\n\n"
+					}
+				}
+			}
+			f.Comments = nil
+			f.Doc = nil
+			pkgName = f.Name.Name
+			usesSync := false
+			for _, im := range f.Imports {
+				if im.Path.Value == `"sync"` {
+					usesSync = true
+					im.Path.Value = strconv.Quote(syncShimPath)
+					if im.Name == nil {
+						im.Name = ast.NewIdent("sync")
+					}
+				}
+			}
+			_ = usesSync
+			for _, d := range f.Decls {
+				if gd, ok := d.(*ast.GenDecl); ok && gd.Tok == token.VAR {
+					for _, sp := range gd.Specs {
+						for _, n := range sp.(*ast.ValueSpec).Names {
+							if n.Name != "_" {
+								globals = append(globals, n.Name)
+							}
+						}
+					}
+				}
+			}
+			point := func(pos token.Pos) ast.Stmt {
+				site++
+				p := fset.Position(pos)
+				siteTable = append(siteTable, fmt.Sprintf("%d %s:%d", site, filepath.Join(pkg, name), p.Line))
+				return &ast.ExprStmt{X: &ast.CallExpr{
+					Fun:  &ast.SelectorExpr{X: ast.NewIdent("zzsched"), Sel: ast.NewIdent("P")},
+					Args: []ast.Expr{&ast.BasicLit{Kind: token.INT, Value: strconv.Itoa(site)}},
+				}}
+			}
+			var list func(l []ast.Stmt) []ast.Stmt
+			var stmt func(s ast.Stmt)
+			list = func(l []ast.Stmt) []ast.Stmt {
+				out := make([]ast.Stmt, 0, 2*len(l))
+				for _, s := range l {
+					if g, ok := s.(*ast.GoStmt); ok {
+						// go f(x)  =>  zzsched.Go(func() { f(x) })
+						s = &ast.ExprStmt{X: &ast.CallExpr{
+							Fun:  &ast.SelectorExpr{X: ast.NewIdent("zzsched"), Sel: ast.NewIdent("Go")},
+							Args: []ast.Expr{&ast.FuncLit{Type: &ast.FuncType{Params: &ast.FieldList{}}, Body: &ast.BlockStmt{List: []ast.Stmt{&ast.ExprStmt{X: g.Call}}}}},
+						}}
+					}
+					out = append(out, point(s.Pos()), s)
+					stmt(s)
+				}
+				return out
+			}
+			stmt = func(s ast.Stmt) {
+				switch s := s.(type) {
+				case *ast.BlockStmt:
+					s.List = list(s.List)
+				case *ast.IfStmt:
+					stmt(s.Body)
+					if s.Else != nil {
+						stmt(s.Else)
+					}
+				case *ast.ForStmt:
+					stmt(s.Body)
+				case *ast.RangeStmt:
+					stmt(s.Body)
+				case *ast.SwitchStmt:
+					for _, c := range s.Body.List {
+						cc := c.(*ast.CaseClause)
+						cc.Body = list(cc.Body)
+					}
+				case *ast.TypeSwitchStmt:
+					for _, c := range s.Body.List {
+						cc := c.(*ast.CaseClause)
+						cc.Body = list(cc.Body)
+					}
+				case *ast.SelectStmt:
+					for _, c := range s.Body.List {
+						cc := c.(*ast.CommClause)
+						cc.Body = list(cc.Body)
+					}
+				case *ast.LabeledStmt:
+					stmt(s.Stmt)
+				}
+			}
+			ast.Inspect(f, func(n ast.Node) bool {
+				switch n := n.(type) {
+				case *ast.FuncDecl:
+					if n.Body != nil && n.Name.Name != "init" {
+						n.Body.List = list(n.Body.List)
+					}
+				case *ast.FuncLit:
+					n.Body.List = list(n.Body.List)
+				}
+				return true
+			})
+			// import zzsched
+			imp := &ast.GenDecl{Tok: token.IMPORT, Specs: []ast.Spec{&ast.ImportSpec{Name: ast.NewIdent("zzsched"), Path: &ast.BasicLit{Kind: token.STRING, Value: strconv.Quote(schedPath)}}}}
+			f.Decls = append([]ast.Decl{imp}, f.Decls...)
+			var buf bytes.Buffer
+			buf.WriteString(header)
+			if err := printer.Fprint(&buf, token.NewFileSet(), f); err != nil {
+				return fmt.Errorf("instrument: print %s: %v", src, err)
+			}
+			// a file that declares no function uses no scheduling point: keep the import used
+			buf.WriteString("\nvar _ = zzsched.P\n")
+			dst := filepath.Join(outRoot, pkg, name)
+			os.MkdirAll(filepath.Dir(dst), 0o755)
+			if err := os.WriteFile(dst, buf.Bytes(), 0o644); err != nil {
+				return err
+			}
+			repl[src] = dst
+		}
+		// accessor for the package-level variables
+		sort.Strings(globals)
+		var g bytes.Buffer
+		fmt.Fprintf(&g, "package %s\n\n// ZZVerifGlobals returns the addresses of all package-level variables (generated).\nfunc ZZVerifGlobals() map[string]interface{} {\n\treturn map[string]interface{}{\n", pkgName)
+		for _, n := range globals {
+			fmt.Fprintf(&g, "\t\t%q: &%s,\n", n, n)
+		}
+		g.WriteString("\t}\n}\n")
+		dst := filepath.Join(outRoot, pkg, "zz_verif_globals.go")
+		os.MkdirAll(filepath.Dir(dst), 0o755)
+		if err := os.WriteFile(dst, g.Bytes(), 0o644); err != nil {
+			return err
+		}
+		repl[filepath.Join(dir, "zz_verif_globals.go")] = dst
+	}
+	os.WriteFile(filepath.Join(outRoot, "sites.txt"), []byte(strings.Join(siteTable, "\n")+"\n"), 0o644)
+	return nil
 }
